@@ -7,3 +7,7 @@ Lemma contracts_src_lemma : contracts_ok gen_table = true.
 Proof. vm_compute. reflexivity. Qed.
 Lemma cmp_facts_lemma : cmp_ok gen_cmp = true.
 Proof. vm_compute. reflexivity. Qed.
+Lemma members_lemma : members_ok gen_members = true.
+Proof. vm_compute. reflexivity. Qed.
+Lemma sel_lemma : sel_ok gen_sel = true.
+Proof. vm_compute. reflexivity. Qed.
